@@ -1,6 +1,7 @@
 Require Extraction.
 Require Import ExtrOcamlBasic.
-From Pygls Require Import Model.Outgoing Spec.OutgoingSpec.
+From Pygls Require Import Model.Outgoing Spec.OutgoingSpec Proofs.OutgoingProofs.
 Extraction Language OCaml.
 Extraction "../ocaml/gen/c05_model.ml"
-  init step run trace_from akeys spec guard injective_supply_b disjoint_directions_b valid_results_b lsp_codes_b.
+  init rstep rrun rtrace_from rtrace akeys spec guard injective_supply_b disjoint_directions_b
+  valid_results_b lsp_codes_b.
